@@ -116,11 +116,12 @@ def finish(res, tier, level, t0, facts_key, assumptions, explanation, trusted_ba
         'violations': len(new_viol),
         'notes': res.notes[:50],
     }
-    os.makedirs(os.path.join(VERIF, 'evidence'), exist_ok=True)
-    with open(os.path.join(VERIF, 'evidence', res.prop + '.json'), 'w') as f:
+    evdir = os.environ.get('VERIF_SELFTEST_EVIDENCE', os.path.join(VERIF, 'evidence'))
+    os.makedirs(evdir, exist_ok=True)
+    with open(os.path.join(evdir, res.prop + '.json'), 'w') as f:
         json.dump(ev, f, indent=1, default=str)
     if new_viol:
-        vd = os.path.join(VERIF, 'evidence', 'violations')
+        vd = os.path.join(evdir, 'violations')
         os.makedirs(vd, exist_ok=True)
         path = os.path.join(vd, '%s.json' % res.prop)
         with open(path, 'w') as f:
